@@ -61,6 +61,7 @@ theorem progress_closing {c : Cfg} {s : State} (hfix : c.fix = Fixes.all) (hi : 
       | nil => mv .wDrain
       | cons p q => cases p <;> mv .wDrain
     | flushDisc => mv .wFlush
+    | flushConnack => mv .wFlushConnack
     | setErr => mv .wErr
     | closeSock => mv .wCloseSock
 
